@@ -46,7 +46,7 @@ def single_batch(ctx, rid, fn, allow_after_commit=("store_tx",), group=None):
     return held and held2 and ok3
 
 
-def duplicate_lookup_complete(ctx, rid, f, call_b, call_t, all_accounts=False):
+def duplicate_lookup_complete(ctx, rid, f, call_b, call_t, all_accounts=False, account_from_context=False):
     """The look-up that detects a replayed slate must see every log entry of that slate id:
     no log-id restriction and outstanding_only == false on every production root."""
     from ..flags import FlagRoots
@@ -63,6 +63,14 @@ def duplicate_lookup_complete(ctx, rid, f, call_b, call_t, all_accounts=False):
     if not held:
         run.finding(Finding(rid, f.id, "duplicate look-up does not see every entry of the slate id (restricted by log id or to outstanding entries)", site=c.site_of(f, call_b),
                             detail="outstanding_only roots: %s" % sorted("%s %s" % (r[0], r[1]) for r in roots)))
+    if account_from_context:
+        # the account of the look-up is the transaction's own (Context.parent_key_id), not whichever is active
+        p4 = vf.producers(f, a[4]) | vf.origins(f, a[4])
+        h3 = vf.has_field(p4, c.LW + "types::Context", "parent_key_id") and not vf.has_call(vf.producers(f, a[4]), c.WB + "parent_key_id")
+        run.instance(rid, {"fn": pp.short(f.id), "obligation": "duplicate look-up in the account the send was initiated from (the context's), not the active one"}, held=h3)
+        if not h3:
+            run.finding(Finding(rid, f.id, "the duplicate look-up uses the active account instead of the account recorded in the transaction's context: for a send from a non-active account the guard sees nothing", site=c.site_of(f, call_b)))
+        held = held and h3
     if all_accounts:
         # the party that delivers the slate also names the destination account: a replay must be recognised
         # whichever account it names, so the look-up may not be restricted to one account
@@ -70,7 +78,11 @@ def duplicate_lookup_complete(ctx, rid, f, call_b, call_t, all_accounts=False):
         h2 = ("agg", "core::option::Option", "None") in p4 and not any(x[0] == "agg" and x[2] == "Some" for x in p4)
         run.instance(rid, {"fn": pp.short(f.id), "obligation": "duplicate look-up covers every account (the deliverer chooses the destination account)"}, held=h2)
         if not h2:
-            run.finding(Finding(rid, f.id, "duplicate look-up is restricted to the destination account, which the deliverer of the slate chooses: the same slate delivered again under another account name is received a second time (second log entry, second output)", site=c.site_of(f, call_b)))
+            if f.id.endswith("api_impl::foreign::receive_tx"):
+                msg = "duplicate look-up is restricted to the destination account, which the deliverer of the slate chooses: the same slate delivered again under another account name is received a second time (second log entry, second output)"
+            else:
+                msg = "duplicate look-up is restricted to the account named for this call: the same invoice paid again from another account passes the guard (a second TxSent entry and a second reservation for one slate id)"
+            run.finding(Finding(rid, f.id, msg, site=c.site_of(f, call_b)))
         held = held and h2
     return held
 
@@ -138,7 +150,7 @@ def replay_guard(ctx, rid, f, ty, depth=0, root=None):
                                             dup.append(_EdgeCmp(gd.ok, c.site_of(f, b)))
         info["duplicate_tests"] = len(dup)
     if keyed and dup:
-        duplicate_lookup_complete(ctx, rid, f, keyed[0][0], keyed[0][1], all_accounts=(rid.startswith("C03") and ty == "TxReceived" and (root or f.id).endswith("api_impl::foreign::receive_tx")))  # C07 speaks of a second delivery "to that account" only
+        duplicate_lookup_complete(ctx, rid, f, keyed[0][0], keyed[0][1], all_accounts=(rid.startswith("C03") and ((ty == "TxReceived" and (root or f.id).endswith("api_impl::foreign::receive_tx")) or (ty == "TxSent" and (root or f.id).endswith("api_impl::owner::process_invoice_tx")))), account_from_context=(ty == "TxSent" and (root or f.id).endswith("api_impl::owner::tx_lock_outputs")))  # C07 speaks of a second delivery "to that account" only
         x = dup[0]
         same = x.true_edges if x.op == "Eq" else x.false_edges
         starts = [d for (_s, d) in same]
@@ -560,4 +572,29 @@ def log_id_account(ctx, rid, only=None):
         if not held:
             run.finding(Finding(rid, fid, "the log id is drawn from the counter of another account than the one the entry is saved under: with a non-active destination the new entry overwrites an existing entry of that account", site=c.site_of(f, nx[0][0])))
     return n
+
+
+def released_as_unspent(f, save_block, save_term):
+    """The record written by this save was set to Unspent by a plain field assignment that every path to the save passes
+    (OutputData::mark_unspent() only acts on Unconfirmed / Reverted records: it leaves a Locked one as it is)."""
+    OD = c.LW + "types::OutputData"
+    OS = c.LW + "types::OutputStatus"
+    rec = vf.strip_clones(f, save_term["a"][1])
+    blocks = set()
+    for b, st in vf.field_assignments(f, OD, "status"):
+        if st["d"][0] != rec:
+            continue
+        r = st["r"]
+        lit = None
+        if r["k"] == "agg" and r.get("adt") == OS:
+            lit = r.get("var")
+        elif r["k"] == "use":
+            lits = {y[2] for y in vf.producers(f, r["o"]) if y[0] == "agg" and y[1] == OS}
+            lit = next(iter(lits)) if len(lits) == 1 else None
+        if lit == "Unspent":
+            blocks.add(b)
+    if not blocks:
+        return False
+    par = cfg.reach(f, cut_nodes=frozenset(blocks))
+    return save_block not in par
 
